@@ -224,13 +224,21 @@ def policy():
                           + re.escape(call), body):
             _POLICY = 'unbound'
         else:
-            _POLICY = 'unrecognised: ' + body[:120]
+            # a shape the translator does not know: the model keeps the behaviour of the current source
+            # (the copied caller is kept); whether the code still behaves like that is for the oracle and the
+            # correspondence to say
+            _UNRECOGNISED.append(body[:160])
+            _POLICY = 'unbound'
     return _POLICY
+
+
+_UNRECOGNISED = []
 
 
 def extract():
     _check_table()
-    return {'setstate_method_caller_policy': policy()}
+    pol = policy()
+    return {'setstate_method_caller_policy': pol, 'unrecognised_shape': _UNRECOGNISED[:1]}
 
 
 # ------------------------------------------------------------------ implementation side
@@ -767,7 +775,9 @@ def _random_case(rng, mech):
         h = rng.choice([root] * 3 + list(range(len(nodes))))
         nd = nodes[h]
         op = one_op(H(h), nd, {}, [i for i in range(nsub)])
-        if op['op'] in ('watchPartial', 'watchSlot') and nd['cls'] == SUB and rng.random() < 0.5:
+        if h == root:
+            pass
+        elif op['op'] in ('watchPartial', 'watchSlot') and nd['cls'] == SUB and rng.random() < 0.5:
             op = dict(op, target=H(root))                            # the root watches a sub-object explicitly
         elif op['op'] == 'watch' and nd['cls'] == SUB and rng.random() < 0.5 and ['root'] + op['ps'] not in nd['watched']:
             nd['watched'].remove(op['ps'])
@@ -890,7 +900,7 @@ def cases(rng, tier, worker, nworkers):
         for f in sorted(glob.glob(os.path.join(os.path.dirname(__file__), '..', '..', 'corpus', 'C17', '*.json'))):
             yield dict(json.load(open(f))['case'], policy=policy(), classes=CLASSES)
         yield from directed()
-    n_random = 2200 if tier == "quick" else 40000 // nworkers
+    n_random = 1700 if tier == "quick" else 40000 // nworkers
     for j in range(n_random):
         yield (_random_case3 if j % 4 == 3 else _random_case)(rng, MECHS[j % len(MECHS)])
 
